@@ -353,6 +353,7 @@ static void rand_pointer(char *out)
 		static const char *big[] = {"1152921504606846976", "2147483647", "2147483648", "4294967295", "4294967296", "4294967297", "4294967298",
 		                            "9223372036854775807", "9223372036854775808", "9223372036854775809", "18446744073709551615",
 		                            "18446744073709551616", "18446744073709551617", "18446744073709551618", "18446744073709551619",
+		                            "2305843009213693951", "2305843009213693952", "2305843009213693953", "4611686018427387904", "9999999999999999999",
 		                            "36893488147419103232", "36893488147419103233", "184467440737095516160", "184467440737095516161",
 		                            "340282366920938463463374607431768211456", "340282366920938463463374607431768211457",
 		                            "100000000000000000000", "99999999999999999999", "00", "000000000000000000000"};
@@ -378,8 +379,10 @@ static int pads_gigabytes(const char *p)
 		const char *t = p;
 		size_t n = strcspn(p, "/");
 		p += n;
+		/* (from 2^61 on the element array cannot even be sized: such a set is refused without allocating, and what
+		 * happens to the value on that path is worth seeing) */
 		if (n >= 9 && strspn(t, "0123456789") >= n && t[0] != '0')
-			if (n < 20 || (n == 20 && strncmp(t, "18446744073709551615", 20) < 0))
+			if (n < 19 || (n == 19 && strncmp(t, "2305843009213693952", 19) < 0))
 				return 1;
 	}
 	return 0;
